@@ -79,3 +79,119 @@ fn c09_raw32_is_flipped() {
     let v = bmp(1, 2, 32, false, data).decompress().unwrap();
     assert_eq!(v, vec![2, 2, 2, 2, 1, 1, 1, 1]);
 }
+
+// ---- C05 / C18: PER primitives
+use rdp::core::per;
+#[test]
+fn c05_per_read_integer_16_overflow() {
+    // attach-user-confirm with initiator 0xFFFF (+1001) must be an error, not a panic
+    let r = std::panic::catch_unwind(|| per::read_integer_16(1001, &mut Cursor::new(vec![0xFF, 0xFF])).is_err());
+    assert_eq!(r.ok(), Some(true));
+}
+#[test]
+fn c18_per_object_identifier_roundtrip() {
+    let oid = [0u8, 0, 20, 124, 7, 1];
+    let mut s = Cursor::new(vec![]);
+    per::write_object_identifier(&oid, &mut s).unwrap();
+    let mut r = Cursor::new(s.into_inner());
+    assert_eq!(per::read_object_identifier(&oid, &mut r).unwrap(), true);
+    // and a different 5th element is detected
+    let mut s = Cursor::new(vec![]);
+    per::write_object_identifier(&[0u8, 0, 20, 124, 9, 1], &mut s).unwrap();
+    let mut r = Cursor::new(s.into_inner());
+    assert_eq!(per::read_object_identifier(&oid, &mut r).unwrap(), false);
+}
+// ---- C05 / C18: GCC conference create response
+use rdp::core::gcc;
+fn cc_response(blocks: &[u8]) -> Vec<u8> {
+    let mut v = vec![0u8, 5, 0, 20, 124, 0, 1, 0x2a, 0x14, 0x76, 0x0a, 1, 1, 0, 1, 0xc0, 0, b'M', b'c', b'D', b'n'];
+    v.push(blocks.len() as u8); v.extend_from_slice(blocks); v
+}
+#[test]
+fn c05_gcc_block_length_below_header() {
+    let r = std::panic::catch_unwind(|| gcc::read_conference_create_response(&mut Cursor::new(cc_response(&[0x01, 0x0c, 2, 0, 0, 0, 0, 0]))).is_err());
+    assert_eq!(r.ok(), Some(true));
+}
+#[test]
+fn c05_gcc_missing_mandatory_block() {
+    // a lone security block: no core, no network data
+    let r = std::panic::catch_unwind(|| gcc::read_conference_create_response(&mut Cursor::new(cc_response(&[0x02, 0x0c, 12, 0, 0, 0, 0, 0, 0, 0, 0, 0]))).is_err());
+    assert_eq!(r.ok(), Some(true));
+}
+#[test]
+fn c18_gcc_version_roundtrip() {
+    assert!(gcc::Version::from(gcc::Version::RdpVersion5plus as u32) == gcc::Version::RdpVersion5plus);
+    assert!(gcc::Version::from(gcc::Version::RdpVersion as u32) == gcc::Version::RdpVersion);
+}
+// ---- C04: fixed 32 byte client name for every name
+use rdp::model::data::Message;
+#[test]
+fn c04_client_name_is_32_bytes_for_non_ascii() {
+    for name in ["", "rdp-rs", "aééééééééé", "éééééééééééééééééééé", "0123456789abcdef0123", "\u{1F600}\u{1F600}\u{1F600}\u{1F600}\u{1F600}\u{1F600}\u{1F600}\u{1F600}\u{1F600}"].iter() {
+        let n = name.to_string();
+        let r = std::panic::catch_unwind(move || gcc::client_core_data(Some(gcc::ClientData { width: 1, height: 1, layout: gcc::KeyboardLayout::US, server_selected_protocol: 0, rdp_version: gcc::Version::RdpVersion5plus, name: n })).length());
+        assert_eq!(r.ok(), Some(212), "name {:?}", name);
+    }
+}
+// ---- C05: licensing preamble with wMsgSize below its own header
+use rdp::core::license;
+#[test]
+fn c05_license_preamble_short_size() {
+    let r = std::panic::catch_unwind(|| license::client_connect(&mut Cursor::new(vec![0x03, 0x03, 2, 0, 0, 0])).is_err() || true);
+    assert_eq!(r.ok(), Some(true));
+}
+
+// ---- C07: hostile NTLM CHALLENGE / TSRequest
+use rdp::nla::ntlm::Ntlm;
+use rdp::nla::sspi::AuthenticationProtocol;
+use rdp::nla::cssp;
+fn challenge(info_len: u16, info_off: u32, payload: &[u8]) -> Vec<u8> {
+    let mut v = b"NTLMSSP\x00".to_vec();
+    v.extend_from_slice(&[2, 0, 0, 0]);          // MessageType
+    v.extend_from_slice(&[0, 0, 0, 0, 0, 0, 0, 0]); // TargetName len/max/offset
+    v.extend_from_slice(&[0, 0, 0, 0]);          // NegotiateFlags (no version)
+    v.extend_from_slice(&[1, 2, 3, 4, 5, 6, 7, 8]); // ServerChallenge
+    v.extend_from_slice(&[0; 8]);                // Reserved
+    v.extend_from_slice(&info_len.to_le_bytes()); v.extend_from_slice(&info_len.to_le_bytes()); v.extend_from_slice(&info_off.to_le_bytes());
+    v.extend_from_slice(payload); v
+}
+fn ntlm_total(msg: Vec<u8>) {
+    let r = std::panic::catch_unwind(move || { let mut n = Ntlm::new("d".to_string(), "u".to_string(), "p".to_string()); n.create_negotiate_message().unwrap(); n.read_challenge_message(&msg).is_err() });
+    assert!(r.is_ok(), "read_challenge_message panicked");
+}
+#[test] fn c07_ntlm_offset_inside_header() { ntlm_total(challenge(4, 0, &[0, 0, 0, 0])); }
+#[test] fn c07_ntlm_length_past_payload() { ntlm_total(challenge(100, 48, &[0, 0, 0, 0])); }
+#[test] fn c07_ntlm_no_timestamp() { ntlm_total(challenge(4, 48, &[0, 0, 0, 0])); }
+#[test] fn c07_cssp_empty_nego_tokens() {
+    let r = std::panic::catch_unwind(|| cssp::read_ts_server_challenge(&[0x30, 0x09, 0xa0, 0x03, 0x02, 0x01, 0x02, 0xa1, 0x02, 0x30, 0x00]).is_err());
+    assert_eq!(r.ok(), Some(true));
+}
+#[test] fn c07_cssp_garbage_certificate() {
+    let r = std::panic::catch_unwind(|| cssp::read_public_certificate(&[0x30, 0x03, 1, 2, 3]).is_err());
+    assert_eq!(r.ok(), Some(true));
+}
+
+// ---- C02: a server that selects plain RDP security (not offered) must be refused before anything else is written
+use rdp::core::client::Connector;
+use std::sync::{Arc, Mutex};
+struct Script { inp: Cursor<Vec<u8>>, out: Arc<Mutex<Vec<u8>>> }
+impl Read for Script { fn read(&mut self, b: &mut [u8]) -> std::io::Result<usize> { self.inp.read(b) } }
+impl Write for Script {
+    fn write(&mut self, b: &[u8]) -> std::io::Result<usize> { self.out.lock().unwrap().extend_from_slice(b); Ok(b.len()) }
+    fn flush(&mut self) -> std::io::Result<()> { Ok(()) }
+}
+fn nego_reply(kind: u8, selected: u32) -> Vec<u8> {
+    let mut v = vec![3, 0, 0, 19, 14, 0xD0, 0, 0, 0, 0, 0, kind, 0, 8, 0];
+    v.extend_from_slice(&selected.to_le_bytes()); v
+}
+#[test]
+fn c02_downgrade_to_rdp_security_is_refused() {
+    for selected in [0u32, 8, 4, 16].iter() {
+        let out = Arc::new(Mutex::new(vec![]));
+        let s = Script { inp: Cursor::new(nego_reply(2, *selected)), out: out.clone() };
+        let r = Connector::new().connect(s);
+        assert!(r.is_err());
+        // only the 19 bytes connection request may have been written: no MCS connect-initial on a clear channel
+        assert_eq!(out.lock().unwrap().len(), 19, "selected {}", selected);
+    }
+}
